@@ -321,6 +321,11 @@ def _work_cases(job):
             continue
         tot.merge(c.stats)
         out["n"] += 1
+        if c.cross_smt2:
+            cs = symx.second_solver(c.cross_smt2)
+            for k, v in cs.items():
+                if isinstance(v, int):
+                    out.setdefault("cross", {})[k] = out.get("cross", {}).get(k, 0) + v
         # differential validation of the symbolic run: the same harness on plain floats through
         # the unmodified public API (no stubs) must satisfy every obligation as well
         if not c.violations and job.get("validate", True):
@@ -373,4 +378,12 @@ def run_cases(rep, module, harness, cases, nchunks=64, timeout_ms=20000, max_pat
             rep.add_sample(s)
         rep.cases += r["n"]
         rep.replayed += r.get("validated", 0)
+        if r.get("cross"):
+            agg = rep.extra.setdefault("second_solver", {"solver": "/usr/bin/z3 4.8.12", "checked": 0, "agree": 0, "unknown": 0, "disagree": 0, "errors": 0})
+            for k, v in r["cross"].items():
+                agg[k] = agg.get(k, 0) + v
+            if agg["disagree"]:
+                msg = "second solver (z3 4.8.12) answers sat on an obligation the primary solver discharged"
+                if msg not in rep.inconclusive:
+                    rep.inconclusive.append(msg)
     return results
